@@ -9,6 +9,7 @@ import (
 	"testing"
 
 	"pgregory.net/rapid"
+	"verifharness/bmodel"
 	"verifharness/evid"
 	"verifharness/gen"
 	"verifharness/rk"
@@ -121,9 +122,12 @@ func genSet(t *rapid.T) (*sem.Case, *setInfo, map[string]bool) {
 	return c, info, feat
 }
 
+// builtinModels: reference models of the field builtins (failing statements built from them)
+var builtinModels = bmodel.Field()
+
 func judge(t rk.Failer, slot string, c *sem.Case, key string, nontrivial bool, labels ...string) {
 	c.Print(nil)
-	v := sem.Decide(c, func() sem.ImplOut { return sem.RunV1(c, 0) }, nil, true, true)
+	v := sem.Decide(c, func() sem.ImplOut { return sem.RunV1(c, 0) }, builtinModels, true, true)
 	if v.Discard != nil {
 		evid.Discard(v.Discard.Error())
 		return
@@ -246,7 +250,7 @@ func TestCallTrees(t *testing.T) {
 		k := evid.Scale(6, 16)
 		for i := 0; i < k && len(all) > 0; i++ {
 			p := all[rapid.IntRange(0, len(all)-1).Draw(t, "pos")]
-			what := rapid.IntRange(0, 3).Draw(t, "what")
+			what := rapid.IntRange(0, 4).Draw(t, "what")
 			cc := cloneCase(c)
 			prog := cc.Scripts[p.script]
 			sl := slots(&prog)[p.si]
@@ -281,6 +285,9 @@ func TestCallTrees(t *testing.T) {
 				}
 			case 1:
 				ins, lab = gen.NCall("perr"), "insert/perr"
+			case 2:
+				// a builtin whose argument is fixed in the text and refused only when the statement runs
+				ins, lab = []*gen.Node{gen.NCall("replace", id("k1"), gen.NStr("("), gen.NStr("x")), gen.NSet("zz", gen.NCall("load_json", gen.NStr("{bad"))), gen.NCall("add_key", id("zz"), gen.NCall("load_json", gen.NStr("[1,")))}[rapid.IntRange(0, 2).Draw(t, "builtinfail")], "insert/failing-builtin"
 			default:
 				ins, lab = gen.NSet("zz", gen.NBin("+", gen.NInt(1), gen.NStr("x"))), "insert/ill-typed"
 			}
